@@ -12,8 +12,16 @@ lean/RtcVerif/Gen/InterpCode.lean together with theorems stating that the genera
 model (`Interp.interpScalar`, `Interp.interpArray`, `Interp.interpCore`, `Interp.interpSym`).  The proofs go
 through the hand-proved bridging theorems `code_*_is_model` of Props/C19.lean.
 
-Not translated (correspondence only): the 2-D branch of `interpolate` (list comprehension over columns +
-np.stack), `merge_bounds`.
+Further translators in this file (each with its own closed table, see the section headers below):
+
+  gen_interp_cols   the 2-D values branch of `interpolate` (early exit, per-column recursion, np.stack; scalar
+                    and array query)                                       -> Gen/InterpCols.lean (4 theorems)
+  gen_merge_code    `OptimizationProblem.merge_bounds` (whole function: debug assertions, normalisation loop,
+                    upcasting loop, type assertions, both merges) and `Timeseries.__init__` (one-element /
+                    one-row handling)                                      -> Gen/MergeCode.lean (11 theorems)
+
+Not translated (correspondence only): `ca.DM` values of `Timeseries.__init__`, NaN-valued bounds, the NumPy
+primitives themselves (`np.full_like`, `np.broadcast_to`, `np.maximum`, `np.interp`, ... are table entries).
 
 Closed table: Python construct -> Lean term.  Everything else is rejected (TranslationError -> broken
 obligation `translator: ...`, then the usual failing-input search).
@@ -456,3 +464,812 @@ def gen_interp_code(c):
             f.write(text)
         os.replace(tmp, path)
     return [("RtcVerif.Gen.InterpCode", "RtcVerif.Gen.InterpCode", THEOREMS)]
+
+
+# =================================================================================================
+# merge_bounds / Timeseries.__init__  ->  lean/RtcVerif/Gen/MergeCode.lean        (gen_merge_code)
+#
+# Closed table (values live in the dynamically typed universe `MergeCode.PyV` of
+# lean/RtcVerif/Model/C19MergeCode.lean: Python int / float, integer- or float-dtype 1-D ndarray, 2-D float
+# ndarray, Timeseries with 1-D / 2-D values, non-numeric ndarray, anything else):
+#
+#   statement frame of merge_bounds (matched statement by statement, local names are free):
+#     a, A = <param 0> ; b, B = <param 1>                              the four slots 0..3
+#     if __debug__: for v in (<the four slots>): <assert body>         `checkGen v : Bool`
+#     L = [<the four slots in slot order>]
+#     for i, v in enumerate(L): <body>                                 `normGen v : PyV` (final `L[i]`)
+#     for i, j in [<literal pairs>]: v1 = L[i]; v2 = L[j]; <if chain>  `orderGen`, `upcastGen v1 v2 : Option PyV`
+#                                                                      (new `L[i]`; `continue` / falling off the
+#                                                                      end = unchanged; `raise` = none)
+#     a, A, b, B = L                                                   rebinds the four slots
+#     assert <cond> ...                                                `assertsGen a A b B : Bool`
+#     m, M = None, None                                                no effect
+#     if ...: (assigning the first / second returned name)             `loGen a b` (slots 0, 2) / `hiGen A B`
+#                                                                      (slots 1, 3) : Option PyV
+#     return m, M
+#   the frame itself (which slot is read / written when) is `MergeCode.frame`.
+#   conditions
+#     isinstance(x, np.ndarray | Timeseries | int | float | list)      isArr / isTs / isInt / isFloat / isList x = true
+#     isinstance(x, (T1, T2, ..))                                      disjunction
+#     isinstance(x, type(y))                                           sameType x y = true
+#     isinstance(values, ca.DM)                       (__init__)       False (ca.DM values are outside PyV)
+#     hasattr(x, "__iter__")                                           iterable x = true
+#     np.issubdtype(x.dtype, np.number)                                numericDtype x = true
+#     n1 == n2, n1 != n2  (numbers)                                    n1 = n2, n1 ≠ n2
+#     x.shape == y.shape                                               shapeOf x = shapeOf y
+#     np.all(x.times == y.times)                                       timesOf x = timesOf y
+#     not c ; c1 and c2 ; c1 or c2                                     ¬ c ; ∧ ; ∨
+#   numbers
+#     x.ndim ; len(x) ; len(x.times) ; x.shape[1] ; np.prod(x.shape) ; int literal
+#                                                                      ndim x ; len x ; (timesOf x).length ; shape1 x ; size x ; n
+#   values
+#     a local / slot name ; x.item() ; float(x) ; x.values ; x[0]      its term ; item x ; toFloat x ; valuesOf x ; getItem0 x
+#     Timeseries(x.times, v)                                           tsInit (timesOf x) v   (`tsInit` = __init__ as
+#                                                                      written: `tsInitGen_eq_ref`)
+#     np.full_like(x, s) ; np.full_like(x, s, dtype=np.float64)        fullLike x s (shape AND dtype of x) ; fullLikeF x s
+#     np.broadcast_to(x, y.shape)                                      broadcastLike x y
+#     np.maximum(x, y) ; np.minimum(x, y) ; max(a, b) ; min(a, b)      npMaximum ; npMinimum ; pyMax ; pyMin
+#   Timeseries.__init__(self, times, values):
+#     self.__times = times ; self.__values = <array>                   the object `mkTs times <array>`
+#     np.array(values, dtype=np.float64, copy=True)                    asFloatArray values
+#     np.full_like(times, values, dtype=np.float64)                    fullTimes times values
+#     the properties `times` / `values` must return these attributes
+#   anything else: TranslationError (broken obligation `translator: ...`).
+
+
+class _MExec:
+    """symbolic execution of merge_bounds / __init__ fragments over PyV terms"""
+
+    def __init__(self, env, times_env=None):
+        self.env = dict(env)            # python local name -> Lean term (PyV)
+        self.times_env = dict(times_env or {})   # python name -> Lean term (List Rat)
+
+    # ---- values -------------------------------------------------------------------------------
+    def val(self, n, env):
+        if isinstance(n, ast.Name):
+            if n.id in env:
+                return env[n.id]
+            raise TranslationError("unknown name %s" % n.id)
+        if isinstance(n, ast.Attribute) and n.attr == "values":
+            return "(valuesOf %s)" % self.val(n.value, env)
+        if isinstance(n, ast.Subscript) and isinstance(n.slice, ast.Constant) and n.slice.value == 0 \
+                and not isinstance(n.value, ast.Attribute):
+            return "(getItem0 %s)" % self.val(n.value, env)
+        if isinstance(n, ast.Call):
+            f = n.func
+            fn = ast.unparse(f)
+            kw = {k.arg: ast.unparse(k.value) for k in n.keywords}
+            if isinstance(f, ast.Attribute) and f.attr == "item" and not n.args and not kw:
+                return "(item %s)" % self.val(f.value, env)
+            if fn == "float" and len(n.args) == 1 and not kw:
+                return "(toFloat %s)" % self.val(n.args[0], env)
+            if fn == "Timeseries" and len(n.args) == 2 and not kw:
+                return "(tsInit %s %s)" % (self.times(n.args[0], env), self.val(n.args[1], env))
+            if fn == "np.full_like" and len(n.args) == 2:
+                if isinstance(n.args[0], ast.Name) and n.args[0].id in self.times_env:
+                    if kw == {"dtype": "np.float64"}:
+                        return "(fullTimes %s %s)" % (self.times_env[n.args[0].id], self.val(n.args[1], env))
+                    raise TranslationError("unsupported " + ast.unparse(n))
+                if not kw:
+                    return "(fullLike %s %s)" % (self.val(n.args[0], env), self.val(n.args[1], env))
+                if kw == {"dtype": "np.float64"}:
+                    return "(fullLikeF %s %s)" % (self.val(n.args[0], env), self.val(n.args[1], env))
+            if fn == "np.array" and len(n.args) == 1 and kw == {"dtype": "np.float64", "copy": "True"}:
+                return "(asFloatArray %s)" % self.val(n.args[0], env)
+            if fn == "np.broadcast_to" and len(n.args) == 2 and not kw and isinstance(n.args[1], ast.Attribute) \
+                    and n.args[1].attr == "shape":
+                return "(broadcastLike %s %s)" % (self.val(n.args[0], env), self.val(n.args[1].value, env))
+            if fn in ("np.maximum", "np.minimum", "max", "min") and len(n.args) == 2 and not kw:
+                lean = {"np.maximum": "npMaximum", "np.minimum": "npMinimum", "max": "pyMax", "min": "pyMin"}[fn]
+                return "(%s %s %s)" % (lean, self.val(n.args[0], env), self.val(n.args[1], env))
+        raise TranslationError("unsupported value " + ast.unparse(n))
+
+    def times(self, n, env):
+        if isinstance(n, ast.Attribute) and n.attr == "times":
+            return "(timesOf %s)" % self.val(n.value, env)
+        if isinstance(n, ast.Name) and n.id in self.times_env:
+            return self.times_env[n.id]
+        raise TranslationError("unsupported time stamps " + ast.unparse(n))
+
+    def is_times(self, n):
+        return (isinstance(n, ast.Attribute) and n.attr == "times") or \
+            (isinstance(n, ast.Name) and n.id in self.times_env)
+
+    # ---- numbers ------------------------------------------------------------------------------
+    def nat(self, n, env):
+        if isinstance(n, ast.Constant) and isinstance(n.value, int) and not isinstance(n.value, bool) and n.value >= 0:
+            return str(n.value)
+        if isinstance(n, ast.Attribute) and n.attr == "ndim":
+            return "(ndim %s)" % self.val(n.value, env)
+        if isinstance(n, ast.Subscript) and isinstance(n.value, ast.Attribute) and n.value.attr == "shape" \
+                and isinstance(n.slice, ast.Constant) and n.slice.value == 1:
+            return "(shape1 %s)" % self.val(n.value.value, env)
+        if isinstance(n, ast.Call) and not n.keywords and len(n.args) == 1:
+            fn = ast.unparse(n.func)
+            if fn == "len":
+                if self.is_times(n.args[0]):
+                    return "(%s).length" % self.times(n.args[0], env)
+                return "(len %s)" % self.val(n.args[0], env)
+            if fn == "np.prod" and isinstance(n.args[0], ast.Attribute) and n.args[0].attr == "shape":
+                return "(size %s)" % self.val(n.args[0].value, env)
+        raise TranslationError("unsupported number " + ast.unparse(n))
+
+    # ---- conditions ---------------------------------------------------------------------------
+    TYPES = {"np.ndarray": "isArr", "Timeseries": "isTs", "int": "isInt", "float": "isFloat", "list": "isList"}
+
+    def isinst(self, x, t, env):
+        if isinstance(t, ast.Tuple):
+            return "(" + " ∨ ".join(self.isinst(x, e, env) for e in t.elts) + ")"
+        ts = ast.unparse(t)
+        if ts in self.TYPES:
+            return "(%s %s = true)" % (self.TYPES[ts], self.val(x, env))
+        if ts == "ca.DM":
+            return "False"
+        if isinstance(t, ast.Call) and ast.unparse(t.func) == "type" and len(t.args) == 1:
+            return "(sameType %s %s = true)" % (self.val(x, env), self.val(t.args[0], env))
+        raise TranslationError("unsupported isinstance type " + ts)
+
+    def cond(self, n, env):
+        if isinstance(n, ast.BoolOp):
+            op = " ∧ " if isinstance(n.op, ast.And) else " ∨ "
+            return "(" + op.join(self.cond(v, env) for v in n.values) + ")"
+        if isinstance(n, ast.UnaryOp) and isinstance(n.op, ast.Not):
+            return "(¬ %s)" % self.cond(n.operand, env)
+        if isinstance(n, ast.Call):
+            fn = ast.unparse(n.func)
+            if fn == "isinstance" and len(n.args) == 2 and not n.keywords:
+                return self.isinst(n.args[0], n.args[1], env)
+            if fn == "hasattr" and len(n.args) == 2 and isinstance(n.args[1], ast.Constant) \
+                    and n.args[1].value == "__iter__":
+                return "(iterable %s = true)" % self.val(n.args[0], env)
+            if fn == "np.issubdtype" and len(n.args) == 2 and ast.unparse(n.args[1]) == "np.number" \
+                    and isinstance(n.args[0], ast.Attribute) and n.args[0].attr == "dtype":
+                return "(numericDtype %s = true)" % self.val(n.args[0].value, env)
+            if fn == "np.all" and len(n.args) == 1 and isinstance(n.args[0], ast.Compare) \
+                    and len(n.args[0].ops) == 1 and isinstance(n.args[0].ops[0], ast.Eq) \
+                    and self.is_times(n.args[0].left) and self.is_times(n.args[0].comparators[0]):
+                return "(%s = %s)" % (self.times(n.args[0].left, env), self.times(n.args[0].comparators[0], env))
+        if isinstance(n, ast.Compare) and len(n.ops) == 1 and isinstance(n.ops[0], (ast.Eq, ast.NotEq)):
+            a, b = n.left, n.comparators[0]
+            sym = "=" if isinstance(n.ops[0], ast.Eq) else "≠"
+            if all(isinstance(x, ast.Attribute) and x.attr == "shape" for x in (a, b)):
+                return "(shapeOf %s %s shapeOf %s)" % (self.val(a.value, env), sym, self.val(b.value, env))
+            return "(%s %s %s)" % (self.nat(a, env), sym, self.nat(b, env))
+        raise TranslationError("unsupported condition " + ast.unparse(n))
+
+
+def _is_doc(st):
+    return isinstance(st, ast.Expr) and isinstance(st.value, ast.Constant) and isinstance(st.value.value, str)
+
+
+def _names(tup):
+    if isinstance(tup, (ast.Tuple, ast.List)) and all(isinstance(e, ast.Name) for e in tup.elts):
+        return [e.id for e in tup.elts]
+    return None
+
+
+def _translate_merge(tree):
+    _, fn = _find_func(tree, "OptimizationProblem", "merge_bounds")
+    params = [a.arg for a in fn.args.args]
+    if len(params) != 2 or fn.args.vararg or fn.args.kwarg or fn.args.kwonlyargs:
+        raise TranslationError("merge_bounds: unexpected signature %r" % params)
+    body = [st for st in fn.body if not _is_doc(st)]
+    pos = 0
+
+    def nxt(what):
+        nonlocal pos
+        if pos >= len(body):
+            raise TranslationError("merge_bounds: statement expected: " + what)
+        st = body[pos]
+        pos += 1
+        return st
+
+    # 1. the two unpackings
+    slots = []
+    for k in (0, 1):
+        st = nxt("unpacking of parameter %d" % k)
+        ok = isinstance(st, ast.Assign) and len(st.targets) == 1 and _names(st.targets[0]) \
+            and len(st.targets[0].elts) == 2 and isinstance(st.value, ast.Name) and st.value.id == params[k]
+        if not ok:
+            raise TranslationError("merge_bounds: expected `x, X = %s`, found %s" % (params[k], ast.unparse(st)))
+        slots += _names(st.targets[0])
+    if len(set(slots)) != 4:
+        raise TranslationError("merge_bounds: the four bounds need four names")
+    out = {}
+    # 2. debug assertions
+    st = nxt("if __debug__")
+    if not (isinstance(st, ast.If) and isinstance(st.test, ast.Name) and st.test.id == "__debug__" and not st.orelse
+            and len(st.body) == 1 and isinstance(st.body[0], ast.For) and isinstance(st.body[0].target, ast.Name)
+            and _names(st.body[0].iter) and sorted(_names(st.body[0].iter)) == sorted(slots)
+            and not st.body[0].orelse):
+        raise TranslationError("merge_bounds: unexpected debug block " + ast.unparse(st).split("\n")[0])
+    loop = st.body[0]
+    ex = _MExec({})
+
+    def run_check(stmts, env):
+        if not stmts:
+            return "true"
+        s0, rest = stmts[0], stmts[1:]
+        if isinstance(s0, ast.Assert):
+            return "(if %s then %s else false)" % (ex.cond(s0.test, env), run_check(rest, env))
+        if isinstance(s0, ast.If):
+            return "(if %s then %s else %s)" % (ex.cond(s0.test, env), run_check(s0.body + rest, env),
+                                                run_check(s0.orelse + rest, env))
+        raise TranslationError("unsupported statement in the assertion block: " + ast.unparse(s0).split("\n")[0])
+
+    out["check"] = run_check(loop.body, {loop.target.id: "v"})
+    # 3. the list
+    st = nxt("all_bounds = [...]")
+    if not (isinstance(st, ast.Assign) and len(st.targets) == 1 and isinstance(st.targets[0], ast.Name)
+            and isinstance(st.value, ast.List) and _names(st.value) == slots):
+        raise TranslationError("merge_bounds: expected the list of the four bounds in order, found " + ast.unparse(st))
+    L = st.targets[0].id
+
+    def is_slot(node, idx):
+        return isinstance(node, ast.Subscript) and isinstance(node.value, ast.Name) and node.value.id == L \
+            and isinstance(node.slice, ast.Name) and node.slice.id == idx
+
+    # generic straight-line executor: env (locals), slot (current value of L[i]); returns an Option/PyV term
+    def run_body(stmts, env, slot, idx, jdx, wrap):
+        """wrap(slot) = the term for normal termination; raise -> `none` (only when wrap produces Options)"""
+        if not stmts:
+            return wrap(slot)
+        s0, rest = stmts[0], stmts[1:]
+        if _is_doc(s0):
+            return run_body(rest, env, slot, idx, jdx, wrap)
+        if isinstance(s0, ast.Continue):
+            return wrap(slot)
+        if isinstance(s0, ast.Raise):
+            if wrap("x").startswith("(some"):
+                return "none"
+            raise TranslationError("raise in a loop body that cannot fail")
+        if isinstance(s0, ast.Assign):
+            # value read
+            if len(s0.targets) == 1 and isinstance(s0.targets[0], ast.Name) and is_slot(s0.value, idx):
+                e2 = dict(env)
+                e2[s0.targets[0].id] = slot
+                return run_body(rest, e2, slot, idx, jdx, wrap)
+            if len(s0.targets) == 1 and isinstance(s0.targets[0], ast.Name) and jdx and is_slot(s0.value, jdx):
+                e2 = dict(env)
+                e2[s0.targets[0].id] = "v2"
+                return run_body(rest, e2, slot, idx, jdx, wrap)
+            v = ex.val(s0.value, env)
+            e2, sl = dict(env), slot
+            for tg in s0.targets:
+                if isinstance(tg, ast.Name):
+                    e2[tg.id] = v
+                elif is_slot(tg, idx):
+                    sl = v
+                else:
+                    raise TranslationError("unsupported assignment target " + ast.unparse(tg))
+            return run_body(rest, e2, sl, idx, jdx, wrap)
+        if isinstance(s0, ast.If):
+            return "(if %s then %s else %s)" % (ex.cond(s0.test, env),
+                                                run_body(s0.body + rest, env, slot, idx, jdx, wrap),
+                                                run_body(s0.orelse + rest, env, slot, idx, jdx, wrap))
+        raise TranslationError("unsupported statement " + ast.unparse(s0).split("\n")[0])
+
+    # 4. normalisation loop
+    st = nxt("for i, v in enumerate(all_bounds)")
+    if not (isinstance(st, ast.For) and _names(st.target) and len(st.target.elts) == 2 and not st.orelse
+            and ast.unparse(st.iter) == "enumerate(%s)" % L):
+        raise TranslationError("merge_bounds: expected `for i, v in enumerate(%s)`, found %s"
+                               % (L, ast.unparse(st).split("\n")[0]))
+    i_n, v_n = _names(st.target)
+    out["norm"] = run_body(st.body, {v_n: "v"}, "v", i_n, None, lambda s: s)
+    # 5. upcasting loop
+    st = nxt("for i, j in [...]")
+    if not (isinstance(st, ast.For) and _names(st.target) and len(st.target.elts) == 2 and not st.orelse
+            and isinstance(st.iter, (ast.List, ast.Tuple))):
+        raise TranslationError("merge_bounds: expected the upcasting loop, found " + ast.unparse(st).split("\n")[0])
+    pairs = []
+    for e in st.iter.elts:
+        if not (isinstance(e, ast.Tuple) and len(e.elts) == 2 and all(
+                isinstance(x, ast.Constant) and isinstance(x.value, int) and 0 <= x.value <= 3 for x in e.elts)):
+            raise TranslationError("merge_bounds: unsupported index pair " + ast.unparse(e))
+        pairs.append((e.elts[0].value, e.elts[1].value))
+    out["order"] = "[" + ", ".join("(%d, %d)" % p for p in pairs) + "]"
+    i_n, j_n = _names(st.target)
+    out["upcast"] = run_body(st.body, {}, "v1", i_n, j_n, lambda s: "(some %s)" % s)
+    # 6. unpacking
+    st = nxt("a, A, b, B = all_bounds")
+    if not (isinstance(st, ast.Assign) and len(st.targets) == 1 and _names(st.targets[0])
+            and len(st.targets[0].elts) == 4 and isinstance(st.value, ast.Name) and st.value.id == L):
+        raise TranslationError("merge_bounds: expected the unpacking of %s, found %s" % (L, ast.unparse(st)))
+    slots2 = _names(st.targets[0])
+    if len(set(slots2)) != 4:
+        raise TranslationError("merge_bounds: the four bounds need four names")
+    env4 = dict(zip(slots2, ["a", "A", "b", "B"]))
+    # 7. assertions, 8. `m, M = None, None`, 9./10. the two merges, 11. return
+    asserts, blocks = [], []
+    ret = None
+    while pos < len(body):
+        st = nxt("")
+        if isinstance(st, ast.Assert):
+            if blocks:
+                raise TranslationError("merge_bounds: assertion after a merge block")
+            asserts.append(ex.cond(st.test, env4))
+        elif isinstance(st, ast.Assign) and len(st.targets) == 1 and _names(st.targets[0]) \
+                and isinstance(st.value, ast.Tuple) and all(
+                    isinstance(e, ast.Constant) and e.value is None for e in st.value.elts):
+            continue
+        elif isinstance(st, ast.Assign) and len(st.targets) == 1 and isinstance(st.targets[0], ast.Name) \
+                and isinstance(st.value, ast.Constant) and st.value.value is None:
+            continue
+        elif isinstance(st, ast.If):
+            blocks.append(st)
+        elif isinstance(st, ast.Return):
+            ret = st
+            if pos != len(body):
+                raise TranslationError("merge_bounds: statements after return")
+        else:
+            raise TranslationError("merge_bounds: unsupported statement " + ast.unparse(st).split("\n")[0])
+    if ret is None or not _names(ret.value) or len(ret.value.elts) != 2:
+        raise TranslationError("merge_bounds: expected `return m, M`")
+    rm, rM = _names(ret.value)
+    if len(blocks) != 2:
+        raise TranslationError("merge_bounds: expected two merge blocks, found %d" % len(blocks))
+    out["asserts"] = "(" + " ∧ ".join(asserts) + ")" if asserts else "True"
+
+    def run_block(stmts, env, res):
+        if not stmts:
+            if res not in env:
+                raise TranslationError("merge_bounds: a path leaves %s unassigned" % res)
+            return "(some %s)" % env[res]
+        s0, rest = stmts[0], stmts[1:]
+        if isinstance(s0, ast.Raise):
+            return "none"
+        if isinstance(s0, ast.Assign) and len(s0.targets) == 1 and isinstance(s0.targets[0], ast.Name):
+            e2 = dict(env)
+            e2[s0.targets[0].id] = ex.val(s0.value, env)
+            return run_block(rest, e2, res)
+        if isinstance(s0, ast.If):
+            return "(if %s then %s else %s)" % (ex.cond(s0.test, env), run_block(s0.body + rest, env, res),
+                                                run_block(s0.orelse + rest, env, res))
+        raise TranslationError("unsupported statement " + ast.unparse(s0).split("\n")[0])
+
+    def assigned(st):
+        return {t.id for n in ast.walk(st) if isinstance(n, ast.Assign) for t in n.targets if isinstance(t, ast.Name)}
+
+    for key, res, (x, y) in (("lo", rm, (slots2[0], slots2[2])), ("hi", rM, (slots2[1], slots2[3]))):
+        mine = [b for b in blocks if res in assigned(b)]
+        if len(mine) != 1:
+            raise TranslationError("merge_bounds: no single block assigns " + res)
+        out[key] = run_block([mine[0]], {x: "a", y: "b"}, res)
+    return out
+
+
+def _translate_tsinit(tree):
+    cls, fn = _find_func(tree, "Timeseries", "__init__")
+    params = [a.arg for a in fn.args.args]
+    if len(params) != 3 or fn.args.vararg or fn.args.kwarg or fn.args.kwonlyargs:
+        raise TranslationError("Timeseries.__init__: unexpected signature %r" % params)
+    self_n, times_n, values_n = params
+    ex = _MExec({}, {times_n: "times"})
+
+    def self_attr(node, suffix):
+        return isinstance(node, ast.Attribute) and isinstance(node.value, ast.Name) and node.value.id == self_n \
+            and node.attr.endswith(suffix)
+
+    attr_names = {}
+
+    def run(stmts, env, obj):
+        if not stmts:
+            if "times" not in obj or "values" not in obj:
+                raise TranslationError("Timeseries.__init__: a path leaves an attribute unset")
+            return "(mkTs %s %s)" % (obj["times"], obj["values"])
+        s0, rest = stmts[0], stmts[1:]
+        if _is_doc(s0):
+            return run(rest, env, obj)
+        if isinstance(s0, ast.Assign) and len(s0.targets) == 1:
+            tg = s0.targets[0]
+            if self_attr(tg, "__times"):
+                attr_names["times"] = tg.attr
+                o2 = dict(obj)
+                o2["times"] = ex.times(s0.value, env)
+                return run(rest, env, o2)
+            if self_attr(tg, "__values"):
+                attr_names["values"] = tg.attr
+                o2 = dict(obj)
+                o2["values"] = ex.val(s0.value, env)
+                return run(rest, env, o2)
+            if isinstance(tg, ast.Name) and tg.id != times_n:
+                e2 = dict(env)
+                e2[tg.id] = ex.val(s0.value, env)
+                return run(rest, e2, obj)
+        if isinstance(s0, ast.If):
+            c = ex.cond(s0.test, env)
+            if c == "False":   # ca.DM values: outside PyV
+                return run(s0.orelse + rest, env, obj)
+            return "(if %s then %s else %s)" % (c, run(s0.body + rest, env, obj), run(s0.orelse + rest, env, obj))
+        raise TranslationError("Timeseries.__init__: unsupported statement " + ast.unparse(s0).split("\n")[0])
+
+    term = run(fn.body, {values_n: "values"}, {})
+    # the properties return the attributes written above
+    for prop in ("times", "values"):
+        ok = False
+        for item in cls.body:
+            if isinstance(item, ast.FunctionDef) and item.name == prop:
+                b = [s for s in item.body if not _is_doc(s)]
+                ok = len(b) == 1 and isinstance(b[0], ast.Return) and isinstance(b[0].value, ast.Attribute) \
+                    and isinstance(b[0].value.value, ast.Name) and b[0].value.attr == attr_names.get(prop)
+        if not ok:
+            raise TranslationError("Timeseries.%s does not return the attribute __init__ writes" % prop)
+    return term
+
+
+MERGE_TEMPLATE = """import RtcVerif.Props.C19
+/-!
+GENERATED on every run of the C19 check by harness/translate_c19.py (`gen_merge_code`) from
+`OptimizationProblem.merge_bounds` (/repo/src/rtctools/optimization/optimization_problem.py) and
+`Timeseries.__init__` (/repo/src/rtctools/optimization/timeseries.py).  Do not edit.
+-/
+namespace RtcVerif.Gen.MergeCode
+open RtcVerif RtcVerif.Merge RtcVerif.MergeCode
+
+/-- `Timeseries.__init__` -/
+def tsInitGen (times : List Rat) (values : PyV) : PyV :=
+  %(tsinit)s
+
+/-- the debug assertions on one input -/
+def checkGen (v : PyV) : Bool :=
+  %(check)s
+
+/-- body of the normalisation loop: the final `all_bounds[i]` -/
+def normGen (v : PyV) : PyV :=
+  %(norm)s
+
+/-- the index pairs of the upcasting loop -/
+def orderGen : List (Nat × Nat) := %(order)s
+
+/-- body of the upcasting loop: the new `all_bounds[i]` -/
+def upcastGen (v1 v2 : PyV) : Option PyV :=
+  %(upcast)s
+
+/-- the type assertions after the loops -/
+def assertsGen (a A b B : PyV) : Bool :=
+  decide %(asserts)s
+
+/-- merge of the lower bounds -/
+def loGen (a b : PyV) : Option PyV :=
+  %(lo)s
+
+/-- merge of the upper bounds -/
+def hiGen (a b : PyV) : Option PyV :=
+  %(hi)s
+
+/-- `merge_bounds` -/
+def mergeBoundsGen : PyV → PyV → PyV → PyV → Option (PyV × PyV) :=
+  frame checkGen normGen orderGen upcastGen assertsGen loGen hiGen
+
+theorem tsInitGen_eq_ref (times : List Rat) (values : PyV) : tsInitGen times values = tsInit times values := by
+  unfold tsInitGen tsInit
+  cases values with
+  | arr i vs =>
+    match vs with
+    | [] => simp [isArr, isList, len, iterable, getItem0]
+    | [x] => simp [isArr, isList, len, iterable, getItem0]
+    | x :: y :: rest => simp [isArr, isList, len, iterable, getItem0]
+  | arr2 rows =>
+    match rows with
+    | [] => simp [isArr, isList, len, iterable, getItem0]
+    | [r] => simp [isArr, isList, len, iterable, getItem0]
+    | r :: s :: rest => simp [isArr, isList, len, iterable, getItem0]
+  | _ => simp [isArr, isList, len, iterable, getItem0]
+
+theorem checkGen_eq_ref (v : PyV) : checkGen v = checkRef v := by
+  unfold checkGen checkRef
+  cases v with
+  | num i x => cases i <;> simp [isArr, ndim, numericDtype, isFloat, isInt, isTs]
+  | _ => simp [isArr, ndim, numericDtype, isFloat, isInt, isTs]
+
+theorem normGen_eq_ref (v : PyV) : normGen v = normRef v := by
+  unfold normGen normRef
+  by_cases h : (isArr v = true ∧ size v = 1)
+  · obtain ⟨h1, h2⟩ := h
+    simp [h1, h2]
+  · have h' : (isArr v && size v == 1) = false := by
+      cases ha : isArr v <;> simp [ha] at h ⊢
+      exact h
+    simp [h, h']
+
+theorem orderGen_eq_ref : orderGen = orderRef := by decide
+
+theorem upcastGen_eq_ref (v1 v2 : PyV) : upcastGen v1 v2 = upcastRef v1 v2 := by
+  unfold upcastGen upcastRef
+  cases hs : sameType v1 v2 <;> cases hi : isInt v1 <;> cases hf : isFloat v1 <;> cases ha : isArr v1 <;>
+    cases ht : isTs v2 <;> cases hb : isArr v2 <;> simp
+
+theorem assertsGen_eq_ref (a A b B : PyV) : assertsGen a A b B = assertsRef a A b B := by
+  unfold assertsGen assertsRef
+  cases sameType a b <;> cases sameType A B <;> simp
+
+theorem loGen_eq_ref (a b : PyV) : loGen a b = combineRef true a b := by
+  unfold loGen combineRef npMaximum pyMax
+  cases ha : isArr a <;> cases ht : isTs a <;> simp
+
+theorem hiGen_eq_ref (a b : PyV) : hiGen a b = combineRef false a b := by
+  unfold hiGen combineRef npMinimum pyMin
+  cases ha : isArr a <;> cases ht : isTs a <;> simp
+
+/-- `merge_bounds`, as it is in the source now, is the code-level reference -/
+theorem mergeBoundsGen_eq_ref : mergeBoundsGen = mergeBoundsRef := by
+  unfold mergeBoundsGen mergeBoundsRef
+  rw [show checkGen = checkRef from funext checkGen_eq_ref, show normGen = normRef from funext normGen_eq_ref,
+    orderGen_eq_ref, show upcastGen = upcastRef from funext fun a => funext (upcastGen_eq_ref a),
+    show assertsGen = assertsRef from
+      funext fun a => funext fun A => funext fun b => funext (assertsGen_eq_ref a A b),
+    show loGen = combineRef true from funext fun a => funext (loGen_eq_ref a),
+    show hiGen = combineRef false from funext fun a => funext (hiGen_eq_ref a)]
+
+/-- `merge_bounds`, as it is in the source now, computes the model's `mergeBounds` on everything its
+    assertions accept (every mixture of int / float scalars, integer- / float-dtype vectors, 1-D / 2-D
+    Timeseries), including which inputs raise -/
+theorem mergeBoundsGen_eq_model (a A b B : PyV) (ha : Valid a) (hA : Valid A) (hb : Valid b) (hB : Valid B)
+    (wa : WF a) (wA : WF A) (wb : WF b) (wB : WF B) :
+    (mergeBoundsGen a A b B).map (fun p => (den p.1, den p.2)) = mergeBounds (den a) (den A) (den b) (den B) := by
+  rw [mergeBoundsGen_eq_ref]
+  exact C19.code_merge_is_model a A b B ha hA hb hB wa wA wb wB
+
+/-- ... and raises on everything else -/
+theorem mergeBoundsGen_rejects_invalid (a A b B : PyV) (h : ¬ (Valid a ∧ Valid A ∧ Valid b ∧ Valid B)) :
+    mergeBoundsGen a A b B = none := by
+  rw [mergeBoundsGen_eq_ref]
+  exact C19.code_merge_rejects_invalid a A b B h
+
+end RtcVerif.Gen.MergeCode
+"""
+
+MERGE_THEOREMS = ["tsInitGen_eq_ref", "checkGen_eq_ref", "normGen_eq_ref", "orderGen_eq_ref", "upcastGen_eq_ref",
+                  "assertsGen_eq_ref", "loGen_eq_ref", "hiGen_eq_ref", "mergeBoundsGen_eq_ref",
+                  "mergeBoundsGen_eq_model", "mergeBoundsGen_rejects_invalid"]
+
+
+def translate_merge():
+    path = os.path.join(REPO, "src", "rtctools", "optimization", "optimization_problem.py")
+    out = _translate_merge(ast.parse(open(path).read()))
+    tpath = os.path.join(REPO, "src", "rtctools", "optimization", "timeseries.py")
+    out["tsinit"] = _translate_tsinit(ast.parse(open(tpath).read()))
+    return out
+
+
+def _write_if_changed(path, text):
+    old = open(path).read() if os.path.exists(path) else None
+    if old != text:
+        tmp = path + ".tmp%d" % os.getpid()
+        with open(tmp, "w") as f:
+            f.write(text)
+        os.replace(tmp, path)
+
+
+def gen_merge_code(c):
+    """(re)generate lean/RtcVerif/Gen/MergeCode.lean; returns the extra obligation spec for c.prove"""
+    gdir = os.path.join(LEAN_DIR, "RtcVerif", "Gen")
+    os.makedirs(gdir, exist_ok=True)
+    try:
+        parts = translate_merge()
+    except TranslationError as e:
+        c.broken.append(("translator: OptimizationProblem.merge_bounds / Timeseries.__init__", str(e)))
+        return []
+    _write_if_changed(os.path.join(gdir, "MergeCode.lean"), MERGE_TEMPLATE % parts)
+    return [("RtcVerif.Gen.MergeCode", "RtcVerif.Gen.MergeCode", MERGE_THEOREMS)]
+
+
+# =================================================================================================
+# the 2-D values branch of OptimizationProblem.interpolate  ->  lean/RtcVerif/Gen/InterpCols.lean
+#                                                                                   (gen_interp_cols)
+# Closed table (vocabulary: lean/RtcVerif/Model/C19InterpCols.lean; a 2-D `fs` is read column-major, the pair
+# (ts, fs[:, i]) is the i-th knot list `ks` of `cols`):
+#
+#   if isinstance(fs, np.ndarray) and fs.ndim == 2: <body>             the body that is translated (path flag True)
+#   hasattr(t, "__iter__")                                             False (scalar query) / True (array query)
+#   len(t) == len(ts) ; np.all(t == ts)      (array query)             `qs.length = ts.length` ; `qs = ts`
+#   c1 and c2 (static parts evaluated)                                 `c1 ∧ c2`
+#   return fs.copy()                         (array query)             `some (cols.map fun ks => ks.map fun k => XVal.fin k.2)`
+#   [self.interpolate(t, ts, fs[:, i], f_left, f_right, mode) for i in range(fs.shape[1])]
+#                                                                      `cols.map (fun ks => interpScalarGen mode ks fl fr t)`
+#                                                                      / `… interpArrayGen mode ks fl fr qs` (the 1-D paths
+#                                                                      of the same function: Gen/InterpCode.lean);
+#                                                                      every argument must be forwarded in this order
+#   np.stack(<that list>, axis=-1)                                     `stackC …` (scalar) / `stackA …` (array)
+#   v = <list comprehension> ; return <expr>                           environment update ; the term
+
+
+def _translate_cols(fn, is_array):
+    names = [a.arg for a in fn.args.args]
+    if len(names) != 7:
+        raise TranslationError("interpolate: unexpected signature %r" % names)
+    role = dict(zip(names, ROLES))
+    ex0 = _Exec(fn, {}, is_array, "wrap")
+    body = [st for st in fn.body if not _is_doc(st)]
+    if not body or not isinstance(body[0], ast.If) or ex0.static(body[0].test) is not False:
+        raise TranslationError("interpolate: the 2-D test `isinstance(fs, np.ndarray) and fs.ndim == 2` is not "
+                               "the first statement")
+    stmts = body[0].body
+
+    def r(node):
+        return role.get(node.id) if isinstance(node, ast.Name) else None
+
+    def cond(node):
+        """'True' / 'False' / a Lean proposition"""
+        if ex0.is_hasattr_iter(node):
+            return "True" if is_array else "False"
+        if isinstance(node, ast.BoolOp) and isinstance(node.op, ast.And):
+            parts = []
+            for v in node.values:   # short-circuit, left to right
+                x = cond(v)
+                if x == "False":
+                    return "False"
+                if x != "True":
+                    parts.append(x)
+            return "(" + " ∧ ".join(parts) + ")" if parts else "True"
+        if not is_array:
+            raise TranslationError("array-level test on the scalar path: " + ast.unparse(node))
+        if isinstance(node, ast.Compare) and len(node.ops) == 1 and isinstance(node.ops[0], ast.Eq):
+            a, b = node.left, node.comparators[0]
+            if all(isinstance(x, ast.Call) and isinstance(x.func, ast.Name) and x.func.id == "len"
+                   and len(x.args) == 1 for x in (a, b)) and {r(a.args[0]), r(b.args[0])} == {"t", "ts"}:
+                return "(qs.length = ts.length)"
+        if isinstance(node, ast.Call) and ast.unparse(node.func) == "np.all" and len(node.args) == 1 \
+                and isinstance(node.args[0], ast.Compare) and len(node.args[0].ops) == 1 \
+                and isinstance(node.args[0].ops[0], ast.Eq) \
+                and {r(node.args[0].left), r(node.args[0].comparators[0])} == {"t", "ts"}:
+            return "(qs = ts)"
+        raise TranslationError("unsupported condition " + ast.unparse(node))
+
+    def comp(node):
+        if not (isinstance(node, ast.ListComp) and len(node.generators) == 1):
+            return None
+        g = node.generators[0]
+        if g.ifs or g.is_async or not isinstance(g.target, ast.Name):
+            raise TranslationError("unsupported comprehension " + ast.unparse(node))
+        i = g.target.id
+        it = g.iter
+        ok = isinstance(it, ast.Call) and isinstance(it.func, ast.Name) and it.func.id == "range" \
+            and len(it.args) == 1 and isinstance(it.args[0], ast.Subscript) \
+            and isinstance(it.args[0].value, ast.Attribute) and it.args[0].value.attr == "shape" \
+            and r(it.args[0].value.value) == "fs" and isinstance(it.args[0].slice, ast.Constant) \
+            and it.args[0].slice.value == 1
+        if not ok:
+            raise TranslationError("the comprehension does not run over the columns: " + ast.unparse(it))
+        e = node.elt
+        if not (isinstance(e, ast.Call) and isinstance(e.func, ast.Attribute) and isinstance(e.func.value, ast.Name)
+                and e.func.value.id == names[0] and e.func.attr == fn.name and not e.keywords and len(e.args) == 6):
+            raise TranslationError("per-column call is not self.interpolate(...) with six arguments: " + ast.unparse(e))
+        col = e.args[2]
+        col_ok = isinstance(col, ast.Subscript) and r(col.value) == "fs" and isinstance(col.slice, ast.Tuple) \
+            and len(col.slice.elts) == 2 and isinstance(col.slice.elts[0], ast.Slice) \
+            and col.slice.elts[0].lower is None and col.slice.elts[0].upper is None \
+            and col.slice.elts[0].step is None and isinstance(col.slice.elts[1], ast.Name) \
+            and col.slice.elts[1].id == i
+        got = [r(a) for k, a in enumerate(e.args) if k != 2]
+        if not col_ok or got != ["t", "ts", "fl", "fr", "mode"]:
+            raise TranslationError("per-column call does not forward (t, ts, fs[:, i], f_left, f_right, mode): "
+                                   + ast.unparse(e))
+        if is_array:
+            return "(cols.map (fun ks => interpArrayGen mode ks fl fr qs))"
+        return "(cols.map (fun ks => interpScalarGen mode ks fl fr t))"
+
+    def value(node, env):
+        c = comp(node)
+        if c is not None:
+            return c
+        if isinstance(node, ast.Name) and node.id in env:
+            return env[node.id]
+        raise TranslationError("unsupported value " + ast.unparse(node))
+
+    def ret(node, env):
+        if isinstance(node, ast.Call) and isinstance(node.func, ast.Attribute) and node.func.attr == "copy" \
+                and r(node.func.value) == "fs" and not node.args and not node.keywords:
+            if not is_array:
+                raise TranslationError("fs.copy() returned for a scalar query")
+            return "(some (cols.map fun ks => ks.map fun k => XVal.fin k.2))"
+        if isinstance(node, ast.Call) and ast.unparse(node.func) == "np.stack" and len(node.args) == 1 \
+                and len(node.keywords) == 1 and node.keywords[0].arg == "axis" \
+                and ast.unparse(node.keywords[0].value) == "-1":
+            return "(%s %s)" % ("stackA" if is_array else "stackC", value(node.args[0], env))
+        raise TranslationError("unsupported return " + ast.unparse(node))
+
+    def run(stmts, env):
+        if not stmts:
+            raise TranslationError("interpolate (2-D branch): a path ends without return")
+        s0, rest = stmts[0], stmts[1:]
+        if _is_doc(s0):
+            return run(rest, env)
+        if isinstance(s0, ast.Return) and s0.value is not None:
+            return ret(s0.value, env)
+        if isinstance(s0, ast.Assign) and len(s0.targets) == 1 and isinstance(s0.targets[0], ast.Name) \
+                and s0.targets[0].id not in role:
+            e2 = dict(env)
+            e2[s0.targets[0].id] = value(s0.value, env)
+            return run(rest, e2)
+        if isinstance(s0, ast.If):
+            c = cond(s0.test)
+            if c == "True":
+                return run(s0.body + rest, env)
+            if c == "False":
+                return run(s0.orelse + rest, env)
+            return "(if %s then %s else %s)" % (c, run(s0.body + rest, env), run(s0.orelse + rest, env))
+        raise TranslationError("unsupported statement " + ast.unparse(s0).split("\n")[0])
+
+    return run(stmts, {})
+
+
+COLS_TEMPLATE = """import RtcVerif.Gen.InterpCode
+/-!
+GENERATED on every run of the C19 check by harness/translate_c19.py (`gen_interp_cols`) from the 2-D values
+branch of `OptimizationProblem.interpolate` (/repo/src/rtctools/optimization/optimization_problem.py).
+Do not edit.
+-/
+namespace RtcVerif.Gen.InterpCols
+open RtcVerif RtcVerif.Interp RtcVerif.InterpCode RtcVerif.Gen.InterpCode
+
+/-- `interpolate`, 2-D values, scalar query -/
+def colsScalarGen (mode : Nat) (ts : List Rat) (cols : List Knots) (fl fr : Fill) (t : Rat) : Option (List XVal) :=
+  %(scalar)s
+
+/-- `interpolate`, 2-D values, array query -/
+def colsArrayGen (mode : Nat) (ts : List Rat) (cols : List Knots) (fl fr : Fill) (qs : List Rat) :
+    Option (List (List XVal)) :=
+  %(array)s
+
+theorem colsScalarGen_eq_ref (mode : Nat) (ts : List Rat) (cols : List Knots) (fl fr : Fill) (t : Rat) :
+    colsScalarGen mode ts cols fl fr t = colsScalarRef mode cols fl fr t := by
+  have h1 : ∀ ks, interpScalarGen mode ks fl fr t = scalarRef mode ks fl fr t := by
+    intro ks
+    unfold interpScalarGen scalarRef
+    by_cases h : firstTime ks = t <;> simp [h, coreScalarGen_eq_ref]
+  unfold colsScalarGen colsScalarRef
+  simp only [h1]
+
+theorem colsArrayGen_eq_ref (mode : Nat) (ts : List Rat) (cols : List Knots) (fl fr : Fill) (qs : List Rat) :
+    colsArrayGen mode ts cols fl fr qs = colsArrayRef mode ts cols fl fr qs := by
+  have hc : coreElemGen mode = coreRef true mode := by
+    funext ks fl fr t; exact coreElemGen_eq_ref mode ks fl fr t
+  have h1 : ∀ ks, interpArrayGen mode ks fl fr qs = arrayRef mode ks fl fr qs := by
+    intro ks
+    unfold interpArrayGen arrayRef
+    by_cases h : qs = ks.map (·.1) <;> simp [h, hc]
+  unfold colsArrayGen colsArrayRef
+  by_cases h : qs = ts <;> simp [h, h1]
+
+/-- the 2-D branch as it is in the source now (scalar query, the F20 repair) is the column-wise model -/
+theorem colsScalarGen_eq_model (mode : Nat) (ts : List Rat) (cols : List Knots) (fl fr : Fill) (t : Rat)
+    (h : ColsOK ts cols) :
+    colsScalarGen mode ts cols fl fr t = interpColumnsScalar mode cols fl fr t := by
+  rw [colsScalarGen_eq_ref]
+  exact C19.code_cols_scalar_is_model mode ts cols fl fr t h
+
+/-- the 2-D branch as it is in the source now (array query) is the column-wise model `interpColumns`
+    (`interp_columnwise`) -/
+theorem colsArrayGen_eq_model (mode : Nat) (ts : List Rat) (cols : List Knots) (fl fr : Fill) (qs : List Rat)
+    (h : ColsOK ts cols) :
+    colsArrayGen mode ts cols fl fr qs = interpColumns mode cols fl fr qs := by
+  rw [colsArrayGen_eq_ref]
+  exact C19.code_cols_array_is_model mode ts cols fl fr qs h
+
+end RtcVerif.Gen.InterpCols
+"""
+
+COLS_THEOREMS = ["colsScalarGen_eq_ref", "colsArrayGen_eq_ref", "colsScalarGen_eq_model", "colsArrayGen_eq_model"]
+
+
+def translate_cols():
+    path = os.path.join(REPO, "src", "rtctools", "optimization", "optimization_problem.py")
+    tree = ast.parse(open(path).read())
+    _, wrap = _find_func(tree, "OptimizationProblem", "interpolate")
+    return {"scalar": _translate_cols(wrap, False), "array": _translate_cols(wrap, True)}
+
+
+def gen_interp_cols(c):
+    """(re)generate lean/RtcVerif/Gen/InterpCols.lean (imports Gen/InterpCode.lean: call gen_interp_code first);
+    returns the extra obligation spec for c.prove"""
+    gdir = os.path.join(LEAN_DIR, "RtcVerif", "Gen")
+    os.makedirs(gdir, exist_ok=True)
+    try:
+        parts = translate_cols()
+    except TranslationError as e:
+        c.broken.append(("translator: OptimizationProblem.interpolate (2-D branch)", str(e)))
+        return []
+    _write_if_changed(os.path.join(gdir, "InterpCols.lean"), COLS_TEMPLATE % parts)
+    return [("RtcVerif.Gen.InterpCols", "RtcVerif.Gen.InterpCols", COLS_THEOREMS)]
